@@ -31,6 +31,9 @@ structure St where
   pending : List Nat := []           -- `pending_trivia`
   lastWasLinebreak : Bool := false
   lastTokenIdx : Option Nat := none
+  /-- GHOST (not in the Rust code, read by nothing): what `pending_trivia.clear()` and the final `if let Some(last_idx)`
+  throw away; lets the theorems account for every trivia token -/
+  discarded : List Nat := []
 deriving Repr
 
 /-- a syntax token: neither trivia nor the end marker -/
@@ -43,7 +46,7 @@ def step (st : St) (i : Nat) (k : Kind) : St :=
     if k = Kind.LineBreak then
       match st.lastTokenIdx with
       | some last => { st with trailing := appendAt st.trailing last st.pending, pending := [], lastWasLinebreak := true }
-      | none => { st with pending := [], lastWasLinebreak := true }
+      | none => { st with pending := [], lastWasLinebreak := true, discarded := st.discarded ++ st.pending }
     else { st with lastWasLinebreak := false }
   else if k != Kind.Eof then
     let cur := st.tokenIndices.length
@@ -67,7 +70,7 @@ def finish (st : St) : St :=
   if st.pending.isEmpty then st
   else match st.lastTokenIdx with
     | some last => { st with trailing := appendAt st.trailing last st.pending, pending := [] }
-    | none => st
+    | none => { st with pending := [], discarded := st.discarded ++ st.pending }
 
 /-- `PreParsedTokens` -/
 structure Result where
@@ -79,6 +82,11 @@ deriving Repr, DecidableEq
 def preparse (ks : List Kind) : Result :=
   let st := finish (loop {} 0 ks)
   ⟨st.tokenIndices, st.leading, st.trailing⟩
+
+/-- indices (from `off`) of the syntax tokens, in order -/
+def syntaxIndices (off : Nat) : List Kind → List Nat
+  | [] => []
+  | k :: ks => if isSyntax k then off :: syntaxIndices (off + 1) ks else syntaxIndices (off + 1) ks
 
 /-- all `(owner position, trivia index)` pairs of a map -/
 def TMap.pairs (m : TMap) : List (Nat × Nat) := m.flatMap fun e => e.2.map fun i => (e.1, i)
